@@ -184,33 +184,46 @@ Proof.
       cbn [app]. rewrite has_lf_cons, E10. cbn [orb]. destruct (adv_ind _ _ _ R) as [I1 _]. rewrite I1 in I. split; auto; try (apply Nz; lia).
 Qed.
 
-Lemma alias_indent F s t s' : aliasParameter F s = Some (t, s') -> shi s = false ->
-  indent s' = indent s /\ shi s' = false.
+Lemma alias_indent F s t s' : aliasParameter F s = Some (t, s') ->
+  exists mid, Cons s s' mid /\ indent s' = (if has_lf mid then 0 else indent s) /\ (shi s' = false \/ rest s' = []).
 Proof.
-  unfold aliasParameter. destruct (iter alias_body F tt s) as [[u s1]|] eqn:E; [|discriminate]. intros H Sh. inv H.
-  apply (iter_ind alias_body (fun _ s _ s' => indent s' = indent s /\ (shi s = false -> shi s' = false))) in E; auto.
-  - destruct E as [I S]. destruct (atEnd s1) eqn:A; [auto|].
-    destruct (atEnd_false _ A) as (c & r & R). destruct (adv_ind _ _ _ R) as [I1 S1]. split; [congruence|]. rewrite S1, (S Sh). reflexivity.
-  - clear. intros u s u1 s1 u' s' H [I S]. unfold alias_body in H.
-    destruct (negb (atEnd s) && negb (is (peek s) 62)) eqn:G; [|discriminate H]. inv H.
-    apply andb_true_iff in G. destruct G as [G _]. apply negb_true_iff in G. destruct (atEnd_false _ G) as (c & r & R).
-    destruct (adv_ind _ _ _ R) as [I1 S1]. split; [congruence|]. intros Sh. apply S. rewrite S1, Sh. reflexivity.
+  unfold aliasParameter. destruct (iter alias_body F tt s) as [[u s1]|] eqn:E; [|discriminate]. intros H. inv H.
+  assert (X : exists mid, Cons s s1 mid /\ indent s1 = (if has_lf mid then 0 else indent s)).
+  { apply (iter_ind alias_body (fun _ s _ s' => exists mid, Cons s s' mid /\ indent s' = (if has_lf mid then 0 else indent s))) in E; auto.
+    - clear. intros u s _. exists []. split; [apply Cons_refl|reflexivity].
+    - clear. intros u0 s u1 s1 u2 s' H (mid & C & I). unfold alias_body in H.
+      destruct (negb (atEnd s) && negb (is (peek s) 62)) eqn:G; [|discriminate H]. inv H.
+      apply andb_true_iff in G. destruct G as [G _]. apply negb_true_iff in G. destruct (atEnd_false _ G) as (c & r & R).
+      unfold peek in *. rewrite R in *. cbn [is] in *. destruct (c =? 10) eqn:E10.
+      + apply N.eqb_eq in E10. subst c. exists ([10] ++ mid). split; [eapply Cons_trans; [eapply nl_Cons; eauto|eauto]|].
+        cbn [app]. rewrite has_lf_cons. cbn [N.eqb Pos.eqb orb].
+        assert (R' : rest (increaseLine s) = 10 :: r) by exact R. destruct (adv_ind _ _ _ R') as [I1 _].
+        rewrite I1 in I. cbn in I. destruct (has_lf mid); auto.
+      + exists ([c] ++ mid). split; [eapply Cons_trans; [eapply adv_Cons; eauto|eauto]|].
+        cbn [app]. rewrite has_lf_cons, E10. cbn [orb]. destruct (adv_ind _ _ _ R) as [I1 _]. rewrite I1 in I. auto. }
+  destruct X as (mid & C & I). destruct (atEnd s1) eqn:A.
+  - exists mid. split; auto. split; auto. right. apply atEnd_true; auto.
+  - destruct (alias_loop_spec _ _ _ _ _ E) as (_ & _ & _ & [X|X]); [unfold atEnd in A; rewrite X in A; discriminate A|].
+    destruct (peek_rest _ _ X) as [r R]. destruct (adv_ind _ _ _ R) as [I1 S1].
+    exists (mid ++ [62]). split; [eapply Cons_trans; eauto; eapply adv_Cons; eauto|].
+    rewrite has_lf_app, has_lf_cons. cbn [N.eqb Pos.eqb has_lf existsb orb]. rewrite orb_false_r.
+    split; [congruence|]. left. rewrite S1. cbn. apply andb_false_r.
 Qed.
 
 (* ---- dispatch ---- *)
 Lemma dispatch_indent m F s0 c s t s2 : dispatch m F s0 c s = Some (t, s2) -> shi s = false ->
   exists mid, Cons s s2 mid /\ (shi s2 = false \/ rest s2 = []) /\
-    (indent s2 = (if has_lf mid then 0 else indent s) \/ (m = Alias /\ t = tt_ALIAS_PARAMETER /\ In 10 mid)).
+    indent s2 = (if has_lf mid then 0 else indent s).
 Proof.
   unfold dispatch. intros H Sh.
   assert (Triv : forall t', Some (t', s) = Some (t, s2) ->
     exists mid, Cons s s2 mid /\ (shi s2 = false \/ rest s2 = []) /\
-      (indent s2 = (if has_lf mid then 0 else indent s) \/ (m = Alias /\ t = tt_ALIAS_PARAMETER /\ In 10 mid))).
+      indent s2 = (if has_lf mid then 0 else indent s)).
   { intros t' E. inv E. exists []. split; [apply Cons_refl|]. split; auto. }
   destruct (isAlpha c).
   { pose proof H as H'. destruct (identifier_spec _ _ _ _ _ H) as (_ & mid & [C _] & AN). exists mid. split; auto.
     unfold identifier in H'. destruct (while_peek isAlphaNumeric F s) as [s1|] eqn:W; [|discriminate H']. inv H'.
-    destruct (while_peek_ind _ _ _ _ W) as [I S]. split; auto. left.
+    destruct (while_peek_ind _ _ _ _ W) as [I S]. split; auto.
     rewrite (has_lf_false_forall isAlphaNumeric) by (auto using isAlphaNumeric_not10). auto. }
   destruct (isDigit c).
   { pose proof H as H'. destruct (number_spec _ _ _ _ H) as (mid & [C _] & K). exists mid. split; auto.
@@ -224,7 +237,7 @@ Proof.
     - destruct (while_peek isDigit F (adv s1)) as [s3|] eqn:W2; [|discriminate H']. inv H'.
       destruct (while_peek_ind _ _ _ _ W2) as [I2 S2].
       apply andb_true_iff in G. destruct G as [G1 _]. apply is_some in G1. destruct (peek_rest _ _ G1) as [r R].
-      destruct (adv_ind _ _ _ R) as [I3 S3]. split; [left; apply S2; rewrite S3, (S1 Sh); reflexivity|]. left. congruence.
+      destruct (adv_ind _ _ _ R) as [I3 S3]. split; [left; apply S2; rewrite S3, (S1 Sh); reflexivity|]. congruence.
     - inv H'. split; auto. }
   destruct (c =? 45); [eapply Triv; eauto|].
   destruct (c =? 46).
@@ -234,7 +247,7 @@ Proof.
     destruct r as [|d r']; [cbn in G2; discriminate G2|]. inv G2.
     destruct (adv_fields _ _ _ R) as (R1 & _). destruct (adv_ind _ _ _ R) as [I1 S1]. destruct (adv_ind _ _ _ R1) as [I2 S2].
     exists ([46] ++ [46]). split; [eapply Cons_trans; eapply adv_Cons; eauto|].
-    split; [left; rewrite S2, S1, Sh; reflexivity|]. left. cbn. congruence. }
+    split; [left; rewrite S2, S1, Sh; reflexivity|]. cbn. congruence. }
   destruct (c =? 44); [eapply Triv; eauto|]. destruct (c =? 58); [eapply Triv; eauto|].
   destruct (c =? 40); [eapply Triv; eauto|]. destruct (c =? 41); [eapply Triv; eauto|].
   destruct (c =? 34).
@@ -244,10 +257,7 @@ Proof.
   destruct (c =? 91).
   { apply comment_indent in H. destruct H as (mid & C & I & S). exists mid. auto. }
   destruct ((c =? 60) && match m with Alias => true | Normal => false end) eqn:G; [|eapply Triv; eauto].
-  apply andb_true_iff in G. destruct G as [_ G]. destruct m; [discriminate G|].
-  pose proof H as H'. apply aliasParameter_spec in H. destruct H as (T & mid & C & _ & _).
-  destruct (alias_indent _ _ _ _ H' Sh) as [I S]. exists mid. split; auto. split; auto.
-  destruct (has_lf mid) eqn:L; auto. right. split; auto. split; auto. apply has_lf_in; auto.
+  apply alias_indent in H. destruct H as (mid & C & I & S). exists mid. auto.
 Qed.
 
 (* ---- NextToken ---- *)
@@ -255,7 +265,7 @@ Lemma nextToken_indent m F s t s' : nextToken m F s = Some (t, s') ->
   exists ws mid s0, Cons s s0 ws /\ Forall blank ws /\ Cons s0 s' mid /\ t = mkToken (ty t) s0 s' /\
     indent s0 = gapd (shi s) (indent s) 0 ws /\
     (shi s' = false \/ rest s' = []) /\
-    (indent s' = (if has_lf mid then 0 else indent s0) \/ (m = Alias /\ ty t = tt_ALIAS_PARAMETER /\ In 10 mid)).
+    indent s' = (if has_lf mid then 0 else indent s0).
 Proof.
   unfold nextToken, skipWhitespace. destruct (iter ws_body F 0 s) as [[a s0]|] eqn:W; [|discriminate]. cbn [option_map snd].
   destruct (ws_loop_indent _ _ _ _ _ W) as (ws & C0 & B & I0 & S0).
@@ -264,7 +274,7 @@ Proof.
     destruct (skipWhitespace_spec _ _ _ W') as (_ & _ & _ & NB). exact NB. }
   destruct (atEnd s0) eqn:A.
   - intros H. inv H. exists ws, [], s'. split; auto. split; auto. split; [apply Cons_refl|]. split; [reflexivity|].
-    split; auto. split; [right; apply atEnd_true; auto|]. left. reflexivity.
+    split; auto. split; [right; apply atEnd_true; auto|]. reflexivity.
   - destruct (atEnd_false _ A) as (c & r & R).
     assert (Ad : advance s0 = (c, adv s0)) by (unfold adv, advance; rewrite R; reflexivity). rewrite Ad.
     destruct (dispatch m F s0 c (adv s0)) as [[t0 s2]|] eqn:D; [|discriminate]. intros H. inv H.
@@ -280,45 +290,35 @@ Proof.
     split; [eapply Cons_trans; eauto; eapply adv_Cons; eauto|]. split; [reflexivity|]. split; auto. split; auto.
     cbn [app ty mkToken]. rewrite has_lf_cons.
     replace (c =? 10) with false by (symmetry; apply N.eqb_neq; intros ->; apply Hc; unfold blank; auto). cbn [orb].
-    destruct I as [I|(M & T & L)]; [left; rewrite I, I1; reflexivity|right; cbn; auto].
+    rewrite I, I1. reflexivity.
 Qed.
 
 (* ---- ScanAll ---- *)
 Lemma scanAll_indents m F src : forall fuel s ts pre first, scanAll m F fuel s = Some ts ->
   src = pre ++ rest s -> cur s = len pre -> (shi s = first \/ rest s = []) ->
-  (m = Normal \/ forall t, In t ts -> ty t = tt_ALIAS_PARAMETER -> ~ In 10 (lit t)) ->
   indents src first (cur s) (indent s) ts.
 Proof.
-  induction fuel as [|f IH]; intros s ts pre first H Hsrc Hcur Hsh Hyp; [discriminate H|]. cbn in H.
+  induction fuel as [|f IH]; intros s ts pre first H Hsrc Hcur Hsh; [discriminate H|]. cbn in H.
   destruct (nextToken m F s) as [[t s']|] eqn:T; [|discriminate H].
   destruct (nextToken_indent _ _ _ _ _ T) as (ws & mid & s0 & [R0 C0] & B & [R1 C1] & Tk & I0 & S1 & I1).
   assert (Hs : src = pre ++ ws ++ mid ++ rest s') by (rewrite Hsrc, R0, R1; reflexivity).
   assert (Gap : sub src (cur s) (cur s0) = ws) by (rewrite Hs; apply sub_app; lia).
   assert (Body : sub src (cur s0) (cur s') = mid) by (rewrite Hs, app_assoc; apply sub_app; rewrite ?len_app; lia).
-  assert (I1' : forall r, ts = t :: r -> indent s' = (if has_lf mid then 0 else indent s0)).
-  { intros r ->. destruct I1 as [I1|(M & Ty & L)]; auto. exfalso.
-    destruct Hyp as [Hyp|Hyp]; [congruence|]. apply (Hyp t); cbn; auto.
-    rewrite Tk. cbn [lit mkToken]. rewrite Ty.
-    replace (tt_ALIAS_PARAMETER =? tt_ILLEGAL) with false by (vm_compute; reflexivity).
-    rewrite (literal_mid s0 s' mid) by (split; auto). auto. }
   assert (D1 : indent s0 = (if has_lf ws then indent_run 0 (after_last_lf ws) else if first then indent s + indent_run 0 ws else indent s)).
   { rewrite I0, gapd_spec by auto. destruct (has_lf ws); auto.
     destruct Hsh as [<-|Re]; auto.
     rewrite Re in R0. destruct ws; [|discriminate R0]. cbn. destruct (shi s), first; lia. }
-  assert (Head : forall r, ts = t :: r -> indents src false (cur s') (indent s') r -> indents src first (cur s) (indent s) (t :: r)).
-  { intros r E Hr. cbn [indents]. rewrite Tk. cbn [tstart tend tindent mkToken]. rewrite Gap, Body, <- D1, <- (I1' r E). auto. }
+  assert (Head : forall r, indents src false (cur s') (indent s') r -> indents src first (cur s) (indent s) (t :: r)).
+  { intros r Hr. cbn [indents]. rewrite Tk. cbn [tstart tend tindent mkToken]. rewrite Gap, Body, <- D1, <- I1. auto. }
   destruct (ty t =? tt_EOF) eqn:E.
-  - injection H as <-. apply (Head [] eq_refl). cbn. auto.
-  - destruct (scanAll m F f s') as [ts'|] eqn:R; [|discriminate H]. injection H as <-. apply (Head ts' eq_refl).
+  - injection H as <-. apply Head. cbn. auto.
+  - destruct (scanAll m F f s') as [ts'|] eqn:R; [|discriminate H]. injection H as <-. apply Head.
     apply (IH s' ts' (pre ++ ws ++ mid)); auto.
     + rewrite Hs, <- !app_assoc. reflexivity.
     + rewrite C1, C0, Hcur, !len_app. lia.
-    + destruct Hyp as [Hyp|Hyp]; auto. right. intros t' I. apply Hyp. cbn. auto.
 Qed.
 
-Theorem scan_indents m l0 c0 i0 src ts : scan_from m l0 c0 i0 src = Some ts ->
-  (m = Normal \/ forall t, In t ts -> ty t = tt_ALIAS_PARAMETER -> ~ In 10 (lit t)) ->
-  indents src true 0 i0 ts.
+Theorem scan_indents m l0 c0 i0 src ts : scan_from m l0 c0 i0 src = Some ts -> indents src true 0 i0 ts.
 Proof.
-  unfold scan_from. intros H Hyp. apply (scanAll_indents _ _ src _ _ _ [] true) in H; auto.
+  unfold scan_from. intros H. apply (scanAll_indents _ _ src _ _ _ [] true) in H; auto.
 Qed.
